@@ -345,3 +345,38 @@ Proof.
     + exists sch0, sg. split; assumption.
     + rewrite Hd in Hf. discriminate Hf.
 Qed.
+
+(* ---- the end-entity entry of the recorded chain -------------------------------------------- *)
+Lemma cm_ee_of_chain cm :
+  cm_chain cm <> [] ->
+  exists e rest, cm_entries cm = e :: rest /\ cm_chain cm = e_id e :: map e_id rest /\
+                 cm_key cm = e_key e /\ cm_cert cm = e_cert e /\ cm_dc cm = e_dc e.
+Proof.
+  unfold cm_chain, cm_key, cm_cert, cm_dc, cm_ee. destruct (cm_entries cm) as [|e rest]; intros H.
+  - exfalso. apply H. reflexivity.
+  - exists e, rest. repeat split; reflexivity.
+Qed.
+
+Lemma client13_dc_ee O r s :
+  client13 O r = Ok s -> s_dc s = true ->
+  exists cm e rest d sg ctx,
+    r_cert r = Some cm /\ cm_entries cm = e :: rest /\
+    s_server_chain s = Some (e_id e :: map e_id rest) /\
+    e_dc e = [d] /\ r_cv r = Some (Some (dc_cv_alg d), sg) /\
+    vb13 O (dc_cv_alg d) (r_prf r) tag_server (r_tr_cv r) = Ok ctx /\
+    sch_in (dc_cv_alg d) (r_dc_offered r) = true /\ sch_in (dc_alg d) (r_offered r) = true /\
+    sig_ok O (e_key e) (Some (dc_alg d)) (dc_tbs (e_cert e) (dc_cred d) (dc_alg d)) (dc_sig d) = true /\
+    sig_ok O (dc_key d) (Some (dc_cv_alg d)) ctx sg = true.
+Proof.
+  intros H Hd.
+  destruct (client13_dc O r s H Hd) as (cm & d & sg & ctx & Hc & Hdc & Hcv & Hvb & H1 & H2 & H3 & H4).
+  destruct (s_server_chain s) as [c|] eqn:Sc.
+  - destruct (client13_recorded O r s c H Sc) as (_ & _ & _ & cm' & _ & _ & _ & Hc' & Hch & Hne & _).
+    rewrite Hc in Hc'. injection Hc' as Hc'. subst cm'. subst c.
+    destruct (cm_ee_of_chain cm Hne) as (e & rest & He & Hchain & Hk & Hce & Hde).
+    exists cm, e, rest, d, sg, ctx.
+    rewrite Hchain. rewrite <- Hk, <- Hce, <- Hde.
+    repeat split; first [assumption|reflexivity].
+  - exfalso. revert H Hd Sc. unfold client13, records, finished, key_from_chain, dc_verify. intros H Hd Sc.
+    inv; cbn in Hd, Sc; try discriminate Hd; try discriminate Sc.
+Qed.
